@@ -765,6 +765,9 @@ pub fn run(ctx: &mut Ctx) {
         }
         ctx.bounds.insert("notifications_sent_ahead".into(), json!(format!("{} bursts: every ordered pair of changes over 2 documents x {} texts, runs of 3..6 changes to one document and alternating between two", seqs.len(), TEXTS.len())));
     }
+    // every C02 world with one planted fault as a document, in six spellings: what is published is what `check`
+    // reports for it — the code and the position of the primary label (converted independently to UTF-16 columns)
+    crate::checks::c02::lsp_range_oracle_into(ctx);
     ctx.bounds.insert("many_documents".into(), json!("N in 1,7,8,9,…,255,256,257 unrelated documents x 3 faulty texts x {re-sent to the same document, moved to another document}"));
     ctx.evaluations = transitions + hist_count;
     ctx.extra.insert("histories_without_dedup".into(), json!(hist_count));
@@ -914,6 +917,9 @@ fn parse_event(name: &str) -> Option<Event> {
 
 pub fn replay(case: &Value) -> Result<String, String> {
     let mode = case["mode"].as_str().unwrap_or("history");
+    if mode == "lsp-range" {
+        return crate::checks::c02::replay_lsp_range(case);
+    }
     if mode == "contents" {
         return Err("contents-mode replays are re-derived by running the check (CLI / label comparison); run ./bin/check C11 quick".into());
     }
